@@ -53,13 +53,22 @@ def run(ctx):
     from joserfc import jws
     from joserfc import rfc7797 as r97
     from joserfc.jwk import KeySet
-    ok, log = ctx.prove()
+    ok, log = ctx.prove(extra_targets=["model/C03Cases.vo"])
     rng = ctx.rng
     K = J.keys()
     fixed, _ = detect_fixed()
+    # variant probe (fix03): does a payload that is not UTF-8 get detached, or does to_str raise?
+    _p = call(r97.serialize_compact, {"alg": "HS256", "b64": False, "crit": ["b64"]}, b"\xff\x00", K["oct32"], ["HS256"])
+    if _p[0] == "ok" and _p[1].split(".")[1] == "":
+        lenient = True
+    elif _p[0] == "err" and isinstance(_p[1], UnicodeDecodeError):
+        lenient = False
+    else:
+        raise RuntimeError("unexpected behaviour of the non-UTF-8 payload probe: %r" % (_p[1],))
+    ctx.notes.append("rfc7797.serialize_compact non-UTF-8 payload: %s" % ("detached (fix03)" if lenient else "raises UnicodeDecodeError"))
     cases, meta = [], []
     dist = {}
-    budget = ctx.scale(1100, 40000)
+    budget = ctx.scale(700, 40000)
 
     def note(k):
         dist[k] = dist.get(k, 0) + 1
@@ -134,7 +143,7 @@ def run(ctx):
                     rows, _ = rec.take()
                     if form == "set":
                         rows += choose_row(skobj, hdr)
-                    add("%s %s %s %s %s %s %s" % ("JSerCompact97" if is97 else "JSerCompact", J.c_table(rows), J.c_dict(hdr_in), c_hex(pl),
+                    add("%s %s %s %s %s %s %s" % (("JSerCompact97 %s" % J.c_table(rows) + " " + c_bool(lenient)) if is97 else ("JSerCompact %s" % J.c_table(rows)), "", J.c_dict(hdr_in), c_hex(pl),
                                                  J.c_keysrc(skobj), J.c_algs([alg]), J.c_res(r, lambda t: c_hex(t.encode()))),
                         {"fn": "serialize_compact97" if is97 else "serialize_compact", "what": "%s:%s" % (alg, b64), **replay})
                     if r[0] != "ok":
@@ -206,6 +215,11 @@ def run(ctx):
                             continue
                     n = 1 if ser == "flat" else int(ser[3])
                     members = [copy.deepcopy(m) for _ in range(n)]
+                    if n > 1 and m.get("protected"):
+                        for i_, mm in enumerate(members):
+                            mm["protected"]["cty"] = "m%d" % i_      # distinct signing inputs per member
+                    same_input = n > 1 and not m.get("protected")
+                    randomized = alg.startswith(("PS", "ES"))
                     members_in = copy.deepcopy(members)
                     rec.take()
                     if ser == "flat":
@@ -227,7 +241,8 @@ def run(ctx):
                         term = "JSerGen %s %s %s %s %s %s" % (J.c_table(rows), c_list([J.c_smember(x) for x in members_in]), c_hex(pl), J.c_keysrc(skobj),
                                                              J.c_algs([alg]), J.c_res(r, J.c_jval))
                     # with several same-type keys in the set each member may pick another key: one OChoose row cannot describe that
-                    if not (form == "set" and n > 1 and J.other_key_same_type(kn)):
+                    # (randomized signatures over one and the same signing input: the finite table cannot tell them apart)
+                    if not (form == "set" and n > 1 and J.other_key_same_type(kn)) and not (same_input and randomized):
                         add(term, {"fn": "serialize_json", "what": "%s:%s:%s" % (ser, alg, b64), **replay})
                     if r[0] != "ok":
                         if fixed and is97 and placement == "split":
